@@ -256,6 +256,7 @@ func (fr *frame) execInstr(in ssa.Instruction, st *State, reach string, b *ssa.B
 		if fr.pure {
 			return
 		}
+		fr.mapUpdateAsserts(x, st, reach)
 		u.oblige(fr.obName("mapwrite", fr.describe(x.Map, 0)), "mapwrite", nil, reach, fmt.Sprintf("(not (= %s 0))", mv.t), fr.pos(x.Pos()), "")
 		if mv.guard != "" {
 			h := u.heapGet(st, "GH:locks", "(Array Int Int)")
